@@ -118,6 +118,8 @@ class TemplateExecutor(Executor):
                 self.p.assume(z >= 0)
                 self.w.used_assumption("a Vyxal value used as a count is a non-negative integer")
                 env[nm] = SV(z, INT)
+            if isinstance(decl, Ty) and decl.kind == "val" and v is not None and not isinstance(v, (SV, Ref)):
+                env[nm] = self.to_val(v)  # e.g. a module-level function passed as the function argument
         return env
 
     def star_symbolic(self, v):
